@@ -650,7 +650,9 @@ func (c *fnCtx) resetObligations() {
 			keep[k] = true
 		}
 	}
-	var keys []struct{ key, name string }
+	type rkey = struct{ key, name string }
+	var keys []rkey
+	nonzero := map[string][2]string{} // key -> (heap key, kind) of a component that is non-zero exactly for a visible value (top-level fields only)
 	var walk func(t types.Type, prefix string, depth int)
 	walk = func(t types.Type, prefix string, depth int) {
 		st, ok := t.Underlying().(*types.Struct)
@@ -671,12 +673,65 @@ func (c *fnCtx) resetObligations() {
 			default:
 				comps := scalarComponents(f.Type())
 				if len(comps) > 0 {
-					keys = append(keys, struct{ key, name string }{fieldKey(t, f) + comps[len(comps)-1].suf, name})
+					k := fieldKey(t, f) + comps[len(comps)-1].suf
+					keys = append(keys, rkey{k, name})
+					if depth == 0 {
+						switch kindOf(f.Type()) {
+						case KSlice, KStr:
+							nonzero[k] = [2]string{fieldKey(t, f) + "#len", "pos"}
+						case KBool:
+							nonzero[k] = [2]string{fieldKey(t, f), "bool"}
+						case KIface:
+							nonzero[k] = [2]string{fieldKey(t, f) + "#ty", "nz"}
+						case KInt, KPtr:
+							nonzero[k] = [2]string{fieldKey(t, f), "nz"}
+						}
+					}
 				}
 			}
 		}
 	}
 	walk(pt.Elem(), "", 0)
+	// a field that no path of this function (or of its callees) ever writes keeps its initial value through any
+	// sequence of decodes into the same object, exactly as in a fresh object: nothing to prove for it
+	if ms := c.eng.fnMods(c.f); ms != nil && !ms.Top {
+		var written []rkey
+		for _, k := range keys {
+			if ms.Keys[k.key] || ms.Fresh[k.key] {
+				written = append(written, k)
+			}
+		}
+		keys = written
+	}
+	// witness of stale state: some return (successful or not) at which the field has been assigned
+	witness := map[string]string{}
+	for _, k := range keys {
+		gk := "ghost:w:" + k.key
+		c.em.regKey(gk, "Int", false)
+		var alts []string
+		for _, r := range c.rets {
+			saved := c.st
+			c.st = r.st.clone()
+			h := c.heapGet(gk)
+			vis := "true"
+			if nz, ok := nonzero[k.key]; ok && c.em.keyKnown(nz[0]) {
+				hv := "(select " + c.heapGet(nz[0]) + " " + c.resetRecv + ")"
+				switch nz[1] {
+				case "pos":
+					vis = "(> " + hv + " 0)"
+				case "bool":
+					vis = hv
+				default:
+					vis = "(not (= " + hv + " 0))"
+				}
+			}
+			c.st = saved
+			alts = append(alts, "(and "+r.reach+" (= (select "+h+" 0) 1) "+vis+")")
+		}
+		if len(alts) > 0 {
+			witness[k.key] = "(or " + strings.Join(alts, " ") + ")"
+		}
+	}
 	for ri, r := range c.rets {
 		errNil := "true"
 		if n := len(r.vals); n > 0 && r.vals[n-1].K == KIface {
@@ -691,6 +746,7 @@ func (c *fnCtx) resetObligations() {
 			c.st = saved
 			o := &Obl{Class: "reset", Fn: c.fnName(), Pos: c.eng.prog.Fset.Position(r.pos), Text: "field " + k.name + " is assigned before a successful return", Guard: "(and " + r.reach + " " + errNil + ")", Cond: "(= (select " + h + " 0) 1)"}
 			o.Name = fmt.Sprintf("%s#reset:%s/ret%d", o.Fn, k.name, ri)
+			o.Witness = witness[k.key]
 			c.obls = append(c.obls, o)
 		}
 	}
